@@ -114,7 +114,7 @@ func VerifC15_Open() {
 func VerifC15_Ops() {
 	ls := []string{"5s:15s", "1s:2s,2s:6s"}
 	if vrt.Tier() == 1 {
-		ls = []string{"1s:2s", "5s:15s", "1s:2s,2s:6s", "60s:120s,120s:360s"}
+		ls = []string{"1s:2s", "5s:15s", "1s:2s,2s:6s"}
 	}
 	h := vrtChooseHeaderFrom(ls, Sum, 0.5)
 	img, _ := vrtSymbolicImage(h, "s") // base interval NOT assumed aligned here
